@@ -16,11 +16,13 @@ git apply "$D/patch.diff" || { echo "patch does not apply" >> $L/summary; cat $L
 ( cmake --build _build -j12 > $L/build.log 2>&1 && ctest --test-dir _build -j8 --timeout 900 > $L/ctest.log 2>&1 ); echo "suite with change: $(grep 'tests passed' $L/ctest.log)" >> $L/summary
 ( eval "$DB" ) > $L/demo_build1.log 2>&1; $L/demo > $L/demo1.log 2>&1; echo "demo with change: exit $?" >> $L/summary
 cd /verif
+rm -rf $L/evidence.keep; cp -r /verif/evidence $L/evidence.keep      # runs against the mutated tree must not leave their evidence behind
 for c in "$@"; do
   ./check $c > $L/check_$c.log 2>&1; rc=$?
   echo "check $c: exit $rc; $(grep -c '^VIOLATION' $L/check_$c.log) VIOLATION lines; $(grep -c 'no-failing-input-found' $L/check_$c.log) without failing input" >> $L/summary
   grep '^VIOLATION' $L/check_$c.log | head -3 >> $L/summary
 done
+rm -rf /verif/evidence; cp -r $L/evidence.keep /verif/evidence
 git -C /repo checkout -- . ; (cd /repo && cmake --build _build -j12 > /dev/null 2>&1)
 rm -rf /verif/replays/*/ 2>/dev/null
 cat $L/summary
